@@ -924,7 +924,9 @@ htp_status_t htp_connp_REQ_FINALIZE(htp_connp_t *connp) {
     //Adds linefeed to the buffer if there was one
     if (connp->in_next_byte == LF) {
         IN_COPY_BYTE_OR_RETURN(connp);
-        htp_connp_req_consolidate_data(connp, &data, &len);
+        if (htp_connp_req_consolidate_data(connp, &data, &len) != HTP_OK) {
+            return HTP_ERROR;
+        }
     }
     // Interpret remaining bytes as body data
     htp_status_t rc = htp_tx_req_process_body_data_ex(connp->in_tx, data, len);
